@@ -501,7 +501,20 @@ def run(chk):
     qm.EXTENDED = True
     only = os.environ.get("VERIF_ONLY")
     parts = [("order", p_order), ("mark", p_mark_finished), ("finishjob", p_finishjob), ("preenall", p_preenall), ("pop", p_pop), ("idem", p_push_idempotent),
-             ("callers", p_pushjob_callers), ("handoff", p_handoff_not_finished), ("bounded", bounded)]
+             ("callers", p_pushjob_callers), ("handoff", p_handoff_not_finished),
+             # the remaining segments of C16, under the invariant extended by I14 / I15 / I16: the three clauses are
+             # established by pushjob / push and have to survive every other request
+             ("inv_pushjob", c16.seg_pushjob_new), ("inv_pushjob_contract", c16.seg_pushjob_contract), ("inv_push", c16.seg_push),
+             ("inv_qpull", c16.seg_qpull),
+             ("inv_qfinish", lambda chk: c16.seg_simple(chk, "qserve.QPlugin.rpc_qfinish", QSERVE, "QPlugin.rpc_qfinish",
+                                                        lambda I, S: ([I.sym_int("jobid@id")], {"result": qm.json_of(I, I.fresh("res", Z)),
+                                                                      "error": None if I.decide(I.sym_bool("error_none").z) else I.sym_str("error")}),
+                                                        plugin=True)),
+             ("inv_qkill", lambda chk: c16.seg_simple(chk, "qserve.QPlugin.rpc_qkill", QSERVE, "QPlugin.rpc_qkill",
+                                                      lambda I, S: ([c16.idlist(I)], {}), plugin=True)),
+             ("inv_timeouts", lambda chk: c16.seg_simple(chk, "jobs.workq.handletimeouts", JOBS, "workq.handletimeouts", lambda I, S: ([], {}))),
+             ("inv_dropdead", lambda chk: c16.seg_simple(chk, "jobs.workq.dropdead", JOBS, "workq.dropdead", lambda I, S: ([], {}))),
+             ("bounded", bounded)]
     parts = [(n, f) for n, f in parts if not only or n in only.split(",")]
     for n, f in parts:
         if n != "bounded":
